@@ -3282,15 +3282,13 @@ fn fix_type_for_flags(
 		{
 			ValueType::Arraylike { element_type } =>
 			{
-				let element_type = externalize_type(
+				let deref_type = externalize_arraylike(
 					*element_type,
 					location_of_type,
 					location_of_declaration,
 				)?;
 				Ok(ValueType::View {
-					deref_type: Box::new(ValueType::EndlessArray {
-						element_type: Box::new(element_type),
-					}),
+					deref_type: Box::new(deref_type),
 				})
 			}
 			_ => externalize_type(
@@ -3339,17 +3337,11 @@ fn externalize_type(
 	assert!(value_type.is_wellformed(), "{value_type:?}");
 	match value_type
 	{
-		ValueType::Arraylike { element_type } =>
-		{
-			let element_type = externalize_type(
-				*element_type,
-				location_of_type,
-				location_of_declaration,
-			)?;
-			Ok(ValueType::EndlessArray {
-				element_type: Box::new(element_type),
-			})
-		}
+		ValueType::Arraylike { element_type } => externalize_arraylike(
+			*element_type,
+			location_of_type,
+			location_of_declaration,
+		),
 		ValueType::Pointer { deref_type } =>
 		{
 			let deref_type = externalize_type(
@@ -3390,6 +3382,35 @@ fn externalize_type(
 			location_of_type: location_of_type.clone(),
 			location_of_declaration: location_of_declaration.clone(),
 		}),
+	}
+}
+
+fn externalize_arraylike(
+	element_type: ValueType,
+	location_of_type: &Location,
+	location_of_declaration: &Location,
+) -> Result<ValueType, Error>
+{
+	let element_type = externalize_type(
+		element_type,
+		location_of_type,
+		location_of_declaration,
+	)?;
+	let value_type = ValueType::EndlessArray {
+		element_type: Box::new(element_type),
+	};
+	// The elements of an endless array need a size, which rules out `[][]T`.
+	if value_type.is_wellformed()
+	{
+		Ok(value_type)
+	}
+	else
+	{
+		Err(Error::TypeNotAllowedInExtern {
+			value_type,
+			location_of_type: location_of_type.clone(),
+			location_of_declaration: location_of_declaration.clone(),
+		})
 	}
 }
 
